@@ -67,6 +67,17 @@ def A(x):
     return key_atom(x)
 
 
+def obj(x):
+    """Key of the object a value/key denotes, ignoring TermFlow's «updated by a method call» versions."""
+    k = x if isinstance(x, tuple) else vkey(x)
+    while True:
+        a = A(k)
+        if a is not None and a[0] == "upd":
+            k = a[2]
+        else:
+            return k
+
+
 def const_of(k):
     """Rational value of a constant key, else None."""
     if isinstance(k, tuple) and _is_polykey(k):
@@ -247,6 +258,7 @@ def rule_N1(ctx):
     if any(isinstance(n, ast.AugAssign) for n in ast.walk(f.node)):
         unrec("%s uses an augmented (in-place) assignment, which the write model does not cover" % f.qualname)
     lr, lp = vkey(Poly.atom(("attr", Pk(0), "log_r"))), vkey(Poly.atom(("attr", Pk(0), "log_p")))
+    sites = Sites(prog)
     specs = {
         0: "def s(self, child_log_r_values):\n    return self.log_p\n",
         2: "def s(self, child_log_r_values):\n    return self.log_p + compute_log_S(child_log_r_values)\n",
@@ -273,10 +285,13 @@ def rule_N1(ctx):
                 tgt = lr if ev.kwargs["attr"] == "log_r" else lp
                 val = ev.args[1]
                 a = A(val)
-                if a is not None and a[0] == "mcall" and a[1] == "copy" and not a[3]:
-                    val = _val_of_key(a[2])
-                elif a is not None and a[0] in ("attr", "v", "sub") and tgt == lr:
-                    alias = show(val)
+                if a is not None and a[0] in ("attr", "v", "sub") and tgt == lr:
+                    stmt = sites.context(ev.node)[0]
+                    rhs = stmt.value if isinstance(stmt, (ast.Assign, ast.AnnAssign)) else None
+                    if isinstance(rhs, (ast.Name, ast.Attribute, ast.Subscript)):
+                        alias = show(val)  # a bare reference: the two attributes share one array
+                    elif not (isinstance(rhs, ast.Call) and last_name(rhs) in ("array", "copy")):
+                        unrec("%s: self.log_r = %s" % (f.qualname, u(rhs)))
             elif "out" in ev.kwargs and vkey(ev.kwargs["out"]) in (lr, lp):
                 unrec("%s writes %s through %s(out=...)" % (f.qualname, show(ev.kwargs["out"]), ev.name))
             if tgt in (lr, lp):
@@ -310,7 +325,12 @@ def _content_of(content, v):
             t = Poly.const(c)
             for a, p in m:
                 ak = vkey(Poly.atom(a))
-                base = content.get(ak, Poly.atom(a))
+                if ak in content:
+                    base = content[ak]
+                elif a[0] == "mcall" and a[1] == "copy" and not a[3] and not a[4]:
+                    base = _content_of(content, _val_of_key(a[2]))  # a copy has the content of its original
+                else:
+                    base = Poly.atom(a)
                 t = t * (base ** p)
             out = out + t
         return out
@@ -325,7 +345,7 @@ def rule_N2(ctx):
     if len(f.params) != 1:
         unrec("%s no longer takes one array" % f.qualname)
     ex = extract(prog, f)
-    acc = [e for e in ex.events if e.name.endswith(".accumulate")]
+    acc = [e for e in ex.events if e.name.startswith("np.") and e.name.split(".")[-1] in ("accumulate", "reduce", "reduceat", "outer", "cumsum", "cumprod")]
     if not acc:
         unrec("%s contains no ufunc.accumulate call" % f.qualname)
     names = sorted({e.name for e in acc})
@@ -459,6 +479,8 @@ def rule_N3(ctx):
         a = A(k)
         if a is not None and a[0] == "v" and a[1].startswith("c"):
             return int(a[1][1:])
+        if const_of(k) is not None:
+            return "the constant %s" % show_key(k)  # a constant where a child's R is expected
         return None
 
     concrete_ok = True
@@ -479,9 +501,9 @@ def rule_N3(ctx):
                 continue
             unrec("%s returns %s for %d children" % (fS.qualname, show(r), n))
         leaves = _fold_leaves(a[2][0], conv_names, child)
-        ok = sorted(leaves) == list(range(n))
+        ok = all(isinstance(x, int) for x in leaves) and sorted(leaves) == list(range(n))
         missing = sorted(set(range(n)) - set(leaves))
-        rep = sorted({x for x in leaves if leaves.count(x) > 1})
+        rep = sorted({x for x in leaves if isinstance(x, int) and leaves.count(x) > 1})
         why = "with %d children the fold uses children %s: missing %s, repeated %s" % (n, leaves, missing or "none", rep or "none")
         concrete_ok &= ctx.check(ok, "N3", label + ": every child enters the fold exactly once", fD.where(), why, construct=fD.qualname, stmt="%d children" % n)
     ctx.analysed(fS, fD)
@@ -823,9 +845,11 @@ def _analyse_backend(ctx, fi, sites):
     for ok_ in ops:
         oa = A(ok_)
         if oa is None or oa[0] != "call" or oa[1] != "exp" or len(oa[2]) != 1 or oa[3]:
-            if ok_ in p:
-                a_ok, a_why = False, "child %d enters the convolution in the log domain (no exp)" % p.index(ok_)
-                used.append(p.index(ok_))
+            ks = [i for i in (0, 1) if mentions(ok_, lambda t, i=i: t == ("v", "P%d" % i))]
+            if len(ks) == 1 and not mentions(ok_, lambda t: t[0] == "call" and t[1] == "exp"):
+                a_ok, a_why = False, "child %d enters the convolution in the log domain (%s, no exp)" % (ks[0], show_key(ok_))
+                used.append(ks[0])
+                subtracted = subtracted + (P(ks[0]) - _val_of_key(ok_) if _is_polykey(ok_) else Poly.const(0))
                 continue
             unrec("%s: convolution operand %s" % (q, show_key(ok_)))
         arg = _val_of_key(oa[2][0])
@@ -881,7 +905,7 @@ def rule_N4(ctx):
     undef = False
     for g, vk in alts:
         va = A(vk)
-        if va is not None and va[0] in ("undef",) or va == ("const", "None"):
+        if va is not None and va[0] in ("undef", "g") or va == ("const", "None"):
             undef = True
             continue
         if va is None or va[0] != "call" or va[1] not in names:
@@ -968,7 +992,7 @@ def rule_N5(ctx):
         if m is None:
             continue
         exh = extract(prog, m)
-        evs = [e for e in exh.events if e.name == "." + attr and e.recv is not None and vkey(e.recv) == Pk(0)]
+        evs = [e for e in exh.events if e.name == "." + attr and e.recv is not None and obj(e.recv) == Pk(0)]
         if evs:
             callers[h] = (m, evs)
     fin = callers.get("finish_vertex")
@@ -977,8 +1001,11 @@ def rule_N5(ctx):
         ctx.fail("N5", vc.qualname + ": the update function runs when a vertex is FINISHED (post-order)", vc.where(), "the visitor calls the node update from %s and not from finish_vertex: a parent is combined before its children have been refreshed" % (others or "no DFS hook"), construct=vc.qualname, stmt="finish_vertex")
     else:
         m, evs = fin
-        ok = len(evs) == 1 and not evs[0].guards and len(evs[0].args) == 1 and vkey(evs[0].args[0]) == Pk(1) and not others
-        why = "finish_vertex must call the update function exactly once with the finished vertex and no other hook may call it; found %s%s" % (["%s(%s)%s" % (attr, ", ".join(show(a) for a in e.args), " under a condition" if e.guards else "") for e in evs], (" and calls from " + ", ".join(others)) if others else "")
+        # (a call from another hook as well is redundant, not wrong: finish_vertex runs last for every vertex)
+        ok = any(not e.guards and len(e.args) == 1 and vkey(e.args[0]) == Pk(1) for e in evs)
+        why = "finish_vertex must call the update function unconditionally with the finished vertex; found %s" % ["%s(%s)%s" % (attr, ", ".join(show(a) for a in e.args), " under a condition" if e.guards else "") for e in evs]
+        if others:
+            ctx.note("N5: %s also calls the update function from %s (redundant)" % (vc.name, ", ".join(others)))
         ctx.check(ok, "N5", vc.qualname + ": the update function runs when a vertex is FINISHED (post-order), with that vertex", m.where(), why, construct=vc.qualname, stmt="finish_vertex")
         ctx.analysed(m)
     ctx.analysed(f, init)
@@ -994,7 +1021,7 @@ def rule_N5(ctx):
     order_bad = ends_bad = path_bad = None
     seen_general = False
     for e in ups:
-        if len(e.args) != 1 or vkey(e.recv) != Pk(0):
+        if len(e.args) != 1 or obj(e.recv) != Pk(0):
             unrec("%s: _update_node call %s" % (pf.qualname, [show(a) for a in e.args]))
         el = A(e.args[0])
         if vkey(e.args[0]) == root_idx and e.guards:
@@ -1194,6 +1221,17 @@ def rule_N7(ctx):
             unrec("%s: np.log(%s)" % (dp.qualname, ", ".join(show(a) for a in e.args)))
         ctx.check(sr[1] in (1, -1), "N7", dp.qualname + ": prior constant counts grid points (value.shape[1])", dp.where(e.node), "the prior constant is log of axis %d of the value grid (the number of samples), not of the number of grid points" % sr[1], construct=dp.qualname, stmt="log(value.shape[...])")
     ctx.analysed(dp)
+    # closure: no other product function builds a TreeNode or computes a tree's prior
+    analysed = {an.qualname, fd.qualname}
+    for fi in prog.functions.values():
+        for c in calls(fi.node):
+            if isinstance(c.func, ast.Name) and c.func.id == "TreeNode" and prog.resolve_class("TreeNode", fi.module) is tn.cls and fi.qualname not in analysed:
+                unrec("TreeNode constructed in %s, which N7 does not analyse" % fi.qualname)
+        for st in ast.walk(fi.node):
+            if isinstance(st, ast.Assign) and fi.qualname not in (f.qualname, fd.qualname):
+                for t in st.targets:
+                    if isinstance(t, ast.Attribute) and t.attr == "_log_prior" and not (isinstance(st.value, ast.Attribute) and st.value.attr == "_log_prior"):
+                        unrec("%s assigns _log_prior = %s, which N7 does not analyse" % (fi.qualname, u(st.value)))
     # no data point is ever added to the virtual root
     n = 0
     for fi in prog.functions.values():
